@@ -104,7 +104,7 @@ def check_detector(repo: Repo, res: Result) -> None:
             res.undecide("C05.R3" if src == "O" else "C05.R4", f"{head}::{b.field}", f"cannot tell whether the bucket reports realised pairs or missing dependencies (result shapes {sorted(map(str, sh.ret))})", where(m, m.node))
             continue
         for ev in sh.unknown_filters:
-            res.undecide("C05.R3", key_of(repo, view, ev, f" [{b.field}]"), "a layer lookup guards the addition of a dependency pair, but the test is not of the form layer(end 0) != layer(end 1)", where_of(view, ev))
+            res.undecide("C05.R3", key_of(repo, view, ev, f" [{b.field}]"), "a test on the two ends of a dependency pair guards its addition, but it is not recognisably `layer(end 0) != layer(end 1)`", where_of(view, ev))
         js = sh.judgements()
         jmap = {id(j.node): j for j in js}
         if src == "O" and mode == "present":
@@ -197,6 +197,8 @@ def _absent_guard(view: FuncInfo, sh: Shapes, keyp: list[Production], jmap: dict
             dirty = [a for a in ats if a.startswith(f"ANY:{src}:") and a != want[1]]
             if want[1] in ats:
                 return (False if src == "O" else True), False, f"`{norm(p.elt, 50)}` is reported missing although a realised pair of the layer may exist: the decision whether the layer has a realised pair does not suppress the report"
+            if src == "O" and dirty and not glob and all(a.endswith(":None") for a in dirty):
+                return None, None, "cannot establish that the decision which suppresses the report is made on same-layer-filtered pairs"
             if src == "O" and dirty and not glob:
                 return False, False, f"missing 'other' dependencies are reported depending on `{dirty[0]}`: the decision is not made on same-layer-filtered pairs"
             if glob:
